@@ -564,7 +564,7 @@ func (w *World) sizeLeavesV(p *packages.Package, fd ast.Node, e ast.Expr, depth 
 	case *ast.SelectorExpr:
 		if f, base := FieldSel(p, x); f != nil && f.Name() == "Value" {
 			if tn, _ := namedName(p.TypesInfo.Types[base].Type); tn == "String" || tn == "Bytes" {
-				out["existing:"+w.Src(x)] = true
+				out["existing:"+tn+":"+w.Src(x)] = true
 				return
 			}
 		}
@@ -746,7 +746,9 @@ func ruleLIMIT1(c *Ctx) {
 			// bounded by construction: a single existing value (copy / sub-slice / identity)
 			if len(leaves) == 1 {
 				for k := range leaves {
-					if strings.HasPrefix(k, "existing:") {
+					// of the same kind: a string is bounded by MaxStringLen, which says
+					// nothing about MaxBytesLen (and the other way round)
+					if strings.HasPrefix(k, "existing:"+tn+":") {
 						c.ok(key, cl, "bounded by construction: no longer than the existing value "+k)
 						return true
 					}
